@@ -446,7 +446,7 @@ func (e EncLSV) Encode() []byte {
 	return cat(b, u16(len(e.Inner)), e.Inner, e.Sig)
 }
 func genEncLS(r *Rng) EncLSV {
-	ts := []int{7, 11, 7, 11, 0, 1, 2, 8}
+	ts := []int{7, 11, 7, 11, 0, 1, 2, 8, 7, 11, 3, 4, 5, 6}
 	t := ts[r.Intn(len(ts))]
 	e := EncLSV{SigType: t, Key: r.Bytes(specSigPubLen[t]), Published: uint32(r.U64()), Expires: 1 + uint16(r.U64()%65535), Flags: uint16(r.Intn(2)) << 1}
 	fl := specSigLen[t]
